@@ -275,7 +275,10 @@ def register(E):
         if i >= len(l): raise Panic('swap_remove index')
         v = l[i]; l[i] = l[-1]; l.pop(); return v
     @R(r'^(SmallVec|Vec)::<.*>::extend::<|as Extend<.*>>::extend::<')
-    def _(e, c, a): deref(a[0]).l.extend(drain(e, as_iter(e, a[1]))); return UNIT
+    def _(e, c, a):
+        items = drain(e, as_iter(e, a[1]))
+        if re.search(r' as Extend<&', c): items = [e.copy_val(deref(x)) if isinstance(x, Ref) else x for x in items]        # Extend<&T> for collections of Copy items
+        deref(a[0]).l.extend(items); return UNIT
     @R(r'^Vec::<.*>::drain::<')
     def _(e, c, a): v = deref(a[0]); r = a[1]; del v.l[r.f[0]:r.f[1]]; return UNIT
     @R(r'^core::slice::<impl \[.*\]>::iter(_mut)?$')
